@@ -68,4 +68,7 @@ def sortVals (lt : α → α → Bool) (vs : List α) : Option (List α) :=
   if vs.length < 2 then some vs
   else qsortF lt vs.length vs 0 (vs.length - 1)
 
+/-- `operator<` of the element type of the harness (`int`) -/
+def ltInt (a b : Int) : Bool := decide (a < b)
+
 end Nstd.Seq
